@@ -23,6 +23,7 @@ pub struct World {
     pub protected: Set<Seq<char>>,          // in-scope source files found by discovery
     pub files: Seq<Seq<char>>,              // the same, in discovery order (CodeFinder.code_files paths)
     pub intended: Map<Seq<char>, Seq<u8>>,  // ghost: complete new content declared when a file's edit begins
+    pub alloc: Map<Seq<char>, int>,         // ghost: first ID given to each file that was replaced in this run
     pub check_mode: bool,                   // tied to ProgArgs.check
     pub counter: int,                       // the run's single ID counter, mathematical
     pub issued: Seq<u32>,                   // values handed out by fetch_add, in order
@@ -32,7 +33,7 @@ pub struct World {
 }
 
 pub open spec fn same_but_log(a: World, b: World) -> bool {
-    a.fs == b.fs && a.orig == b.orig && a.protected == b.protected && a.files == b.files && a.intended == b.intended
+    a.fs == b.fs && a.orig == b.orig && a.protected == b.protected && a.files == b.files && a.intended == b.intended && a.alloc == b.alloc
     && a.check_mode == b.check_mode && a.counter == b.counter && a.issued == b.issued
     && a.handlers == b.handlers && a.stop_seen == b.stop_seen
 }
